@@ -464,12 +464,27 @@ func runLife(c lifeCase) harness.Result {
 			return fail("after a graceful shutdown the serve call returned %v, want ErrServerClosed", e)
 		}
 		serveReturned = true
-		// the port no longer accepts connections
-		if conn, err := net.DialTimeout("tcp", addr, time.Second); err == nil {
-			// a connection that is accepted by the kernel but never served would also be wrong
-			closed, _ := observeClosed(conn, 500*time.Millisecond)
-			_ = conn.Close()
-			return fail("after Shutdown a new connection to %s was still accepted (closed by peer afterwards: %v)", addr, closed)
+		// the port no longer accepts connections: the listening socket the server was given must be closed. This is probed on
+		// the listener object itself (Accept must fail at once); a dial to the old address proves nothing either way because
+		// other processes on the machine may already have been given the same ephemeral port.
+		type acc struct {
+			c   net.Conn
+			err error
+		}
+		ach := make(chan acc, 1)
+		go func() {
+			c, err := listener.Accept()
+			ach <- acc{c, err}
+		}()
+		select {
+		case a := <-ach:
+			if a.err == nil {
+				_ = a.c.Close()
+				return fail("after Shutdown returned nil the listening socket still accepts connections")
+			}
+		case <-time.After(2 * time.Second):
+			_ = listener.Close()
+			return fail("after Shutdown returned nil the listening socket is still open (Accept blocks instead of failing)")
 		}
 		for i, cl := range allClients {
 			if !cl.accepted || cl.closedByUs {
